@@ -10,18 +10,31 @@ coq/theories/Model/BufDSL.v, one Coq constructor per Python construct.
 Proofs/BufGenProofs.v then proves that interpreting each generated term is the
 hand-written operation of Model/Buffer.v.
 
+Normalised before translation (behaviour-preserving, norm_utils.py):
+annotations are dropped; `while A: if B: break; ...` is read as
+`while A and not B: ...`.  A local may be assigned inside `try` when the handler
+does not mention it and always returns.  `isinstance(x, Buffer)` and the
+private attributes `x.__iterator` / `x.__i` of ANOTHER Buffer (the constructor
+argument) are translated (EIsBuffer, EOtherField); __init__ may contain `if`.
+
 Fail-closed: any statement or expression shape that is not listed in BufDSL.v
 raises TranslationError, and so does everything around the class that the
 interpreter's reading relies on: the set of methods and their decorators, the
 bases of the class, a rebinding of Token / isinstance / int / len / next /
 iter / bool / hasattr, any use of the mangled private attributes outside the
 class, and the source of the Token methods whose meaning BufDSL.v builds in
-(__new__, __eq__, __add__, __radd__, __iadd__, __bool__, join, Token.Empty),
-which is pinned to the reference text below.
+(__new__, __eq__, __add__, __radd__, __iadd__, __bool__, join, __getattr__,
+Token.Empty), which is pinned to the reference text below.  The comparison is
+made on the TRANSLATION of these defs by gen_token.py (the terms that
+Props/C13token.v proves the built-in reading of), so a rewrite of class Token
+that gen_token.py normalises away (helper functions, a conditional expression
+for an if statement, a result variable, annotations, keyword for positional
+arguments of Token(...)) does not make this translator give up, and any
+change that alters the translated terms still does.
 
-The output depends on the abstract syntax only: comments, docstrings, layout
-and the names of parameters and local variables do not change it (locals are
-numbered: parameters first, then in order of first binding).
+The output depends on the abstract syntax only: comments, docstrings, layout,
+annotations and the names of parameters and local variables do not change it
+(locals are numbered: parameters first, then in order of first binding).
 
 Usage: gen_buffer.py <out.v>      exit 0 = written (only if content changed)
                                   exit 2 = translation failed (message on stderr)
@@ -29,6 +42,10 @@ Usage: gen_buffer.py <out.v>      exit 0 = written (only if content changed)
 import ast
 import os
 import sys
+
+sys.path.insert(0, os.path.dirname(os.path.abspath(__file__)))
+import norm_utils  # noqa: E402
+import gen_token  # noqa: E402
 
 REPO = os.environ.get('TEXSOUP_REPO', '/repo')
 
@@ -168,12 +185,13 @@ def check_module(tree):
             bind(st.name, 'def')
         elif isinstance(st, ast.ClassDef):
             bind(st.name, 'class')
-        elif isinstance(st, ast.Assign):
-            for t in st.targets:
+        elif isinstance(st, (ast.Assign, ast.AnnAssign)):
+            tg = st.targets if isinstance(st, ast.Assign) else [st.target]
+            for t in tg:
                 if isinstance(t, ast.Attribute) and is_name(t.value, 'Token'):
-                    need(t.attr == 'Empty' and len(st.targets) == 1
-                         and ast.dump(st) == ast.dump(ast.parse(TOKEN_EMPTY).body[0]),
-                         'assignment to an attribute of Token at %s is not `%s`' % (where(st), TOKEN_EMPTY))
+                    # its value is compared with the pinned one below (after translation)
+                    need(t.attr == 'Empty' and len(tg) == 1 and st.value is not None,
+                         'assignment to an attribute of Token at %s is not `Token.Empty = ...`' % where(st))
                     bind('Token.Empty', 'assign')
                     continue
                 for x in ast.walk(t):
@@ -201,24 +219,27 @@ def check_module(tree):
         if isinstance(n, ast.Call) and isinstance(n.func, ast.Name) \
                 and n.func.id in ('setattr', 'delattr', 'exec', 'eval', '__import__'):
             raise TranslationError('%s(...) at %s' % (n.func.id, where(n)))
-    # ---- the pinned part of Token
+    # ---- the pinned part of Token: compared AFTER translation by gen_token.py (which
+    # normalises helper functions, conditional expressions, result variables, ...), so
+    # the reading is pinned to what Props/C13token.v proves the assumptions about
     tok = [st for st in tree.body if isinstance(st, ast.ClassDef) and st.name == 'Token'][0]
-    ref = ast.parse(TOKEN_PINNED).body[0]
+    ref_tree = ast.parse(TOKEN_PINNED + '\n' + TOKEN_EMPTY + '\n')
+    ref = ref_tree.body[0]
     need([ast.dump(b) for b in tok.bases] == [ast.dump(b) for b in ref.bases]
          and not tok.keywords and not tok.decorator_list, 'bases/decorators of Token changed')
-    have = {}
-    for st in tok.body:
-        if isinstance(st, ast.FunctionDef):
-            need(st.name not in have, 'Token.%s is defined twice' % st.name)
-            have[st.name] = st
-        elif isinstance(st, ast.Expr) and isinstance(st.value, ast.Constant):
-            pass
-        else:
-            raise TranslationError('unexpected statement in class Token at %s: %s' % (where(st), shape(st)))
-    for r in ref.body:
-        need(r.name in have, 'Token.%s is missing' % r.name)
-        need(norm_fn(have[r.name]) == norm_fn(r),
-             'Token.%s differs from the source the interpreter\'s reading is pinned to' % r.name)
+    names = [r.name for r in ref.body]
+    try:
+        want = gen_token.reading_of(ref_tree, names)
+    except gen_token.TranslationError as e:
+        raise TranslationError('internal: the reference source of Token is not translatable: %s' % e)
+    try:
+        have = gen_token.reading_of(tree, names)
+    except gen_token.TranslationError as e:
+        raise TranslationError('class Token cannot be read (gen_token: %s)' % e)
+    for nm in names + ['Token.Empty']:
+        need(have[nm] == want[nm],
+             '%s%s differs from the source the interpreter\'s reading is pinned to'
+             % ('' if nm == 'Token.Empty' else 'Token.', nm))
     # ---- the class itself
     cl = [st for st in tree.body if isinstance(st, ast.ClassDef) and st.name == 'Buffer'][0]
     need(not cl.bases and not cl.keywords and not cl.decorator_list, 'Buffer has bases/decorators')
@@ -244,7 +265,6 @@ def class_methods(cl):
                  'Buffer.position is not a plain @property')
         else:
             need(not st.decorator_list, 'Buffer.%s has a decorator' % st.name)
-        need(st.returns is None, 'Buffer.%s: return annotation' % st.name)
         meths[st.name] = st
     need(sorted(meths) == sorted(METHODS), 'the methods of Buffer changed: %s' % sorted(meths))
     return [(nm, meths[nm]) for nm in [s.name for s in strip_doc(cl.body)]]
@@ -278,6 +298,7 @@ class Scope(object):
         self.lambdas = lambdas
         self.in_init = in_init
         self.in_try = 0
+        self.try_assigned = []
         self.in_loop = 0
 
     def err(self, n, what):
@@ -298,8 +319,9 @@ class Scope(object):
             self.err(node, 'assignment target')
         nm = node.id
         need(nm != self.self_name, '%s: assignment to self' % self.owner)
-        need(nm not in BUILTINS and nm != 'Token', '%s: assignment to %s' % (self.owner, nm))
-        need(not self.in_try, '%s: assignment to local %s inside try' % (self.owner, nm))
+        need(nm not in BUILTINS and nm not in ('Token', 'Buffer'), '%s: assignment to %s' % (self.owner, nm))
+        if self.in_try:
+            self.try_assigned[-1].add(nm)       # checked when the try statement is complete
         if nm not in self.vars:
             self.vars[nm] = len(self.vars)
         return self.vars[nm]
@@ -356,6 +378,10 @@ class Scope(object):
                 return 'ETokenJoin'
             if self.is_self(n.value):
                 self.err(n, 'unsupported attribute of self')
+            if n.attr in ('__iterator', '__i'):
+                # inside the class body the name is mangled: the private attribute of
+                # ANOTHER Buffer object
+                return 'EOtherField (%s) %s' % (self.ex(n.value), FIELDS[n.attr])
             if n.attr == 'stop':
                 return 'EStop (%s)' % self.ex(n.value)
             if n.attr == 'position':
@@ -425,6 +451,10 @@ class Scope(object):
             if isinstance(f, ast.Name) and f.id not in self.vars and not self.is_self(f):
                 if f.id == 'isinstance' and len(a) == 2 and is_name(a[1], 'int') and 'int' not in self.vars:
                     return 'EIsInt (%s)' % self.ex(a[0])
+                if f.id == 'isinstance' and len(a) == 2 and is_name(a[1], 'Buffer') \
+                        and 'Buffer' not in self.vars:
+                    # check_module: Buffer is bound once, to this class
+                    return 'EIsBuffer (%s)' % self.ex(a[0])
                 if f.id == 'bool' and len(a) == 1:
                     return 'EBoolOf (%s)' % self.ex(a[0])
                 if f.id == 'len' and len(a) == 1:
@@ -506,7 +536,8 @@ class Scope(object):
                 need(not self.in_init, '%s: __init__ reads an attribute' % self.owner)
                 return ('atom', 'SAugField %s %s (%s)' % (f, op, self.ex(s.value)))
             if isinstance(s.target, ast.Name) and s.target.id in self.vars:
-                need(not self.in_try, '%s: assignment to a local inside try' % self.owner)
+                if self.in_try:
+                    self.try_assigned[-1].add(s.target.id)
                 return ('atom', 'SAugVar %d%%nat %s (%s)' % (self.vars[s.target.id], op, self.ex(s.value)))
             self.err(s, 'unsupported augmented assignment')
         if isinstance(s, ast.Assert):
@@ -539,8 +570,21 @@ class Scope(object):
             need(h.name is None and isinstance(h.type, ast.Name) and h.type.id in EXNS
                  and h.type.id not in self.vars, '%s: except clause at %s' % (self.owner, where(s)))
             self.in_try += 1
+            self.try_assigned.append(set())
             b = self.block(s.body)
             self.in_try -= 1
+            assigned = self.try_assigned.pop()
+            if self.try_assigned:
+                self.try_assigned[-1] |= assigned
+            # the interpreter runs the handler from the locals at ENTRY of the try: that is
+            # what Python does as far as anyone can tell if the handler does not mention the
+            # locals assigned in the body and always returns (nothing after the try statement
+            # is reached through the handler)
+            if assigned:
+                used = set(x.id for st in h.body for x in ast.walk(st) if isinstance(x, ast.Name))
+                need(not (assigned & used) and norm_utils.always_returns(h.body),
+                     '%s: locals %s are assigned inside try and the handler may see them at %s'
+                     % (self.owner, sorted(assigned), where(s)))
             return ('try', b, EXNS[h.type.id], self.block(h.body))
         self.err(s, 'unsupported statement')
 
@@ -566,12 +610,15 @@ def default_value(fn, n, lambdas):
 
 
 def translate_method(fn, lambdas):
+    try:
+        fn = norm_utils.strip_annotations(fn)      # annotations are never evaluated in a def body
+    except norm_utils.NormError as e:
+        raise TranslationError(str(e))
+    fn.body = norm_utils.loop_break_to_cond(fn.body)   # while A: if B: break; .. = while A and not B: ..
     a = fn.args
     need(not a.vararg and not a.kwonlyargs and not a.kwarg and not a.kw_defaults
          and not getattr(a, 'posonlyargs', []) and len(a.args) >= 1,
          '%s: unsupported parameter list' % fn.name)
-    for x in a.args:
-        need(x.annotation is None, '%s: annotated parameter' % fn.name)
     names = [x.arg for x in a.args]
     for n in ast.walk(fn):
         need(not isinstance(n, (ast.FunctionDef, ast.AsyncFunctionDef, ast.ClassDef, ast.Yield,
@@ -589,8 +636,13 @@ def translate_method(fn, lambdas):
     need(body, '%s: empty body' % fn.name)
     prog = sc.block(body)
     if fn.name == '__init__':
-        for it in prog:
-            need(it[0] == 'atom', '__init__: compound statement')
+        def flat(items):
+            for it in items:
+                need(it[0] in ('atom', 'if'), '__init__: loop / try statement')
+                if it[0] == 'if':
+                    flat(it[2])
+                    flat(it[3])
+        flat(prog)
     return params, prog
 
 
